@@ -19,6 +19,7 @@ pub struct RelDecl {
     pub member_of: Option<usize>,
     pub can_define: bool,
     pub mor_sig: Option<String>,
+    pub src_name: Option<String>,
 }
 
 #[derive(Clone, Debug)]
@@ -83,6 +84,7 @@ impl Theory {
             member_of: r["member_of"].as_str().map(|t| tix[t]),
             can_define: r["can_define"].as_bool().unwrap_or(false),
             mor_sig: r.get("mor_sig").and_then(|x| x.as_str()).map(|s| s.to_string()),
+            src_name: r.get("src_name").and_then(|x| x.as_str()).map(|s| s.to_string()),
         }).collect();
         let rix: HashMap<String, usize> = rels.iter().enumerate().map(|(i, r)| (r.name.clone(), i)).collect();
         let mut paths = Vec::new();
